@@ -849,6 +849,25 @@ class GK(G):
             if self._ret_closure:
                 self.closure_methods.add((k.name, m))
             methods.append(mb)
+        if self.chance(40):
+            # a method that reads / writes / compound-assigns fields of ANOTHER object: inside a class the compiler
+            # knows the fixed slot of the class's own field names, which must not be applied to a foreign receiver
+            def g(stmt):
+                return ("try", [stmt], [("e", None, [("print", ("call", ("prop", ("call", ("prop", ("var", "e"), "cls"), []), "name"), []))])])
+            pbody = []
+            for _ in range(self.i(1, 4)):
+                f = self.pick(FIELD_POOL)
+                tgt = ("prop", ("var", "o"), f)
+                c = self.i(0, 9)
+                if c < 3:
+                    pbody.append(g(("expr", ("assign", tgt, ("var", "v")))))
+                elif c < 7:
+                    pbody.append(g(("expr", ("opassign", self.pick(["+", "-", "*"]), tgt, ("var", "v")))))
+                else:
+                    pbody.append(g(("print", tgt)))
+            pbody.append(("return", ("var", "v")))
+            methods.append(("poke", ["o", "v"], pbody))
+            k.has_poke = True
         statics = []
         if self.chance(30):
             sname = "s%d" % self.i(1, 2)
@@ -857,6 +876,13 @@ class GK(G):
         self.classes.append(k)
         self.declare(Var(name, "class", False))
         return ("class", name, parent.name if parent else None, init, methods, statics)
+
+    def has_poke(self, k):
+        while k is not None:
+            if getattr(k, "has_poke", False):
+                return True
+            k = k.parent
+        return False
 
     def returns_closure(self, k, m):
         c = k
@@ -955,6 +981,12 @@ class GK(G):
                     out.append(("print", ("call", ("prop", ("var", k.name), sname), [self.expr("num", 1) for _ in range(n)])))
             elif c < 93:
                 out.append(("print", ("call", ("prop", ("call", ("prop", ov, "cls"), []), "name"), [])))
+            elif c < 97 and any(self.has_poke(kk) for _, kk in objs):
+                po, pk = self.pick([(oo, kk) for oo, kk in objs if self.has_poke(kk)])
+                out.append(guarded(("expr", ("call", ("prop", ("var", po), "poke"), [ov, self.expr("num", 1)]))))
+                for f in FIELD_POOL:
+                    if f not in k.shadows():
+                        out.append(guarded(("print", ("prop", ov, f))))
             else:
                 o2, k2 = self.pick(objs)
                 out.append(("print", ("bin", "==", ov, ("var", o2))))
